@@ -19,6 +19,7 @@ func (x *Exec) call(st *State, fr *Frame, site ssa.Instruction, c *ssa.CallCommo
 		args[i] = x.reg(st, fr, a)
 	}
 	where := x.pos(site.Pos())
+	x.curSite = site
 	if c.IsInvoke() {
 		recv := x.reg(st, fr, c.Value)
 		x.invoke(st, fr, site, c, recv, args, where, k)
@@ -593,6 +594,7 @@ func (x *Exec) runDefers(st *State, fr *Frame, k func(*State)) {
 	st.defers[fr.depth] = ds[:len(ds)-1]
 	c := &d.call.Call
 	where := x.pos(d.call.Pos())
+	x.curSite = d.call
 	next := func(st2 *State, _ Val) { x.runDefers(st2, fr, k) }
 	if c.IsInvoke() {
 		x.invoke(st, fr, d.call, c, d.fnv, d.args, where, next)
